@@ -203,6 +203,13 @@ U0 == D0 \cup (IF cur = 0 THEN {} ELSE SigVars(sigs[cur]))
 \* types a `let` or a `case` subject is taken from (every shape but functions)
 ValueTypes == UNION {{s, L(s), Bx(s)} \cup {Tu(s, t) : t \in Pick(U0)} \cup {R(s, t) : t \in Pick(U0)} : s \in Pick(U0)}
 
+\* function types a let may bind a lambda at (the lambda's parameter is pinned, so monomorphic)
+LocalFunTypes == {F1(s, t) : s \in Pick(D0), t \in Pick(D0)}
+\* function-typed variables in scope whose result is ty: <<name, type>>
+FunLocals(ty) == {e \in UNION {env[i].b : i \in 1..Len(env)} :
+                    /\ e[1] # "pending" /\ Con(e[2]) = "Fn" /\ Y(e[2]) = ty
+                    /\ \A i \in 1..Len(env) : ~(<<"pending", "">> \in env[i].b /\ e \in env[i].b)}
+
 \* Signature help (beyond the listed properties): with the cursor right after the `(` of a call, or right after the
 \* n-th comma of its argument list, the editor shows the callee's type at this call `(P1, P2) -> R` and marks parameter
 \* n (0-based) as active.  CALLOPEN / ARGSEP are the `(` and `,` tokens of such a call, tagged with what must be shown.
@@ -245,7 +252,11 @@ Prods(h) ==
     \* with an inferred result type then starts with a rule whose result type is fixed by the rule itself, otherwise
     \* a body consisting of recursive calls only would legitimately be inferred as a type variable)
     (IF (h.s = "EXPRP" /\ ~({"call_gen_rec", "call_rec_labels"} \subseteq Masked)) \/ budget < 1 THEN {} ELSE
-    { P(1, "let_in", <<T("{"), MARK, T("let"), BIND(s), T("="), EX(s), COMMIT, EX(ty), POPMARK, T("}")>>) : s \in Pick(ValueTypes) }
+    { P(1, "let_in", <<T("{"), MARK, T("let"), BIND(s), T("="), EX(s), COMMIT, EX(ty), POPMARK, T("}")>>) : s \in Pick(ValueTypes \cup LocalFunTypes) }
+    \* function-typed locals (parameters annotated with a function type, let-bound lambdas) used without binding anything:
+    \* called under a prefix operator in a discarded statement (no binder depends on it)
+    \cup { P(1, "use_not", <<T("{"), T("let"), T("_"), T("="), T("!"), T(f[1]), T("(")>> \o Lit(X(f[2])) \o <<T(")"), EX(ty), T("}")>>) : f \in Pick({g \in FunLocals("Bool") : X(g[2]) \in LitTypes}) }
+    \cup { P(1, "use_neg", <<T("{"), T("let"), T("_"), T("="), T("-"), T(f[1]), T("(")>> \o Lit(X(f[2])) \o <<T(")"), EX(ty), T("}")>>) : f \in Pick({g \in FunLocals("Int") : X(g[2]) \in LitTypes}) }
     \cup { P(1, "case", <<T("case"), EX(s), T("{"), MARK, PA(s), COMMIT, T("->"), EX(ty), POPMARK, T("_"), T("->"), EX(ty), T("}")>>) : s \in Pick(ValueTypes) }
     \cup { P(1, "id_call", <<T("id"), T("("), EX(ty), T(")")>>), P(1, "wrap_call", <<T("wrap"), T("("), EX(ty), T(")")>>) }
     \* calls to earlier generated functions (generalised by then): each call instantiates the callee's variables afresh
@@ -272,6 +283,10 @@ Prods(h) ==
             \cup { P(1, "apply_lambda", <<T("apply"), T("("), EX(s), T(","), T("fn"), T("("), MARK, LATEON, BIND(s), COMMIT, T(")")>>
                                         \o <<T("{"), EX(ty), T("}"), LATEOFF, POPMARK, T(")")>>) : s \in Pick(ValueTypes) }
             \cup { P(1, "pipe_id", <<GR(ty), T("|>"), T("id")>>) }
+            \* a function-typed local: called, piped into, passed as an argument
+            \cup { P(1, "call_local", <<T(f[1]), T("("), EX(X(f[2])), T(")")>>) : f \in Pick(FunLocals(ty)) }
+            \cup { P(1, "pipe_local", <<GR(X(f[2])), T("|>"), T(f[1])>>) : f \in Pick(FunLocals(ty)) }
+            \cup { P(1, "apply_local", <<T("apply"), T("("), EX(X(f[2])), T(","), T(f[1]), T(")")>>) : f \in Pick(FunLocals(ty)) }
             \* the idiom `list.map(people, fn(p) { p.name })`: an access on the parameter of a lambda argument
             \cup { P(1, "late_use", <<T("apply"), T("("), EX(Tu(ty, s)), T(","), T("fn"), T("("), MARK, LATEON, BIND(Tu(ty, s)), COMMIT, T(")"), T("{"), T(next), T("."), T("0"), T("}"), LATEOFF, POPMARK, T(")")>>) : s \in Pick(U0) }
             \cup { P(1, "late_use", <<T("apply"), T("("), EX(Bx(ty)), T(","), T("fn"), T("("), MARK, LATEON, BIND(Bx(ty)), COMMIT, T(")"), T("{"), T(next), T("."), T("inner"), T("}"), LATEOFF, POPMARK, T(")")>>) }
@@ -284,11 +299,13 @@ Prods(h) ==
                                 P(1, "pipe_add", <<GR("Int"), T("|>"), T("add"), T("("), EX("Int"), T(")")>>),
                                 \* a prefix operator is written inside its own group: after another expression a `-` would continue it
                                 P(1, "neg", <<T("{"), T("-"), GR("Int"), T("}")>>) }
+                              \cup { P(1, "neg", <<T("{"), T("-"), T(f[1]), T("("), EX(X(f[2])), T(")"), T("}")>>) : f \in Pick(FunLocals("Int")) }
                               \cup { P(1, "int_op", <<GR("Int"), T(op), GR("Int")>>) : op \in Pick(IntArith) }
             [] ty = "Float" -> { P(0, "float", <<T("1.5")>>) } \cup { P(1, "float_op", <<GR("Float"), T(op), GR("Float")>>) : op \in Pick(FloatArith) }
             [] ty = "String" -> { P(0, "string", <<T("\"s\"")>>), P(1, "concat", <<GR("String"), T("<>"), GR("String")>>), P(1, "field_b", <<GRS("T"), T("."), T("b")>>),
                                   P(1, "field_key", <<GRS("M"), T("."), T("key")>>) }
             [] ty = "Bool" -> { P(0, "true", <<T("True")>>), P(1, "not", <<T("{"), T("!"), GR("Bool"), T("}")>>) }
+                              \cup { P(1, "not", <<T("{"), T("!"), T(f[1]), T("("), EX(X(f[2])), T(")"), T("}")>>) : f \in Pick(FunLocals("Bool")) }
                               \cup { P(1, "int_cmp", <<GR("Int"), T(op), GR("Int")>>) : op \in Pick(IntCmp) }
                               \cup { P(1, "float_cmp", <<GR("Float"), T(op), GR("Float")>>) : op \in Pick(FloatCmp) }
                               \cup { P(1, "bool_op", <<GR("Bool"), T(op), GR("Bool")>>) : op \in Pick(BoolOps) }
@@ -305,6 +322,7 @@ Prods(h) ==
                                P(1, "list_spread", <<T("["), EX(x), T(","), T(".."), EX(ty), T("]")>>) }
                              \cup { P(1, "late_use", <<T("map"), T("("), EX(L(f[1])), T(","), T("fn"), T("("), MARK, LATEON, BIND(f[1]), COMMIT, T(")"), T("{"), T(next), T("."), T(f[2]), T("}"), LATEOFF, POPMARK, T(")")>>)
                                     : f \in {g \in {<<"T", "a", "Int">>, <<"T", "b", "String">>, <<"M", "key", "String">>} : g[3] = x} }
+                             \cup { P(1, "map_local", <<T("map"), T("("), EX(L(X(f[2]))), T(","), T(f[1]), T(")")>>) : f \in Pick(FunLocals(x)) }
                              \cup { P(1, "map_lambda", <<T("map"), T("("), EX(L(s)), T(","), T("fn"), T("("), MARK, LATEON, BIND(s), COMMIT, T(")")>>
                                                        \o <<T("{"), EX(x), T("}"), LATEOFF, POPMARK, T(")")>>) : s \in Pick(U0) }
             [] c = "Tuple" -> { P(0, "tuple", <<T("#"), T("("), EX(x), T(","), EX(y), T(")")>>) }
@@ -419,7 +437,7 @@ Ann(t)  == [t |-> t, kd |-> Kd("ann", NoPin)]
 Free(i) == [t |-> "u" \o ToString(i), kd |-> Kd("free", NoPin)]
 Pinned(t, pin) == [t |-> t, kd |-> Kd("pin", pin)]
 \* simulation: the kind of parameter i by a class drawn from 1..9
-KindSet(cl, i) == IF cl <= 3 THEN {Ann(t) : t \in ParamTypes} ELSE IF cl <= 5 THEN {Ann(t) : t \in AV} ELSE IF cl <= 7 THEN {Free(i)}
+KindSet(cl, i) == IF cl <= 2 THEN {Ann(t) : t \in ParamTypes} ELSE IF cl = 3 THEN {Ann(t) : t \in Pick(Funs)} ELSE IF cl <= 5 THEN {Ann(t) : t \in AV} ELSE IF cl <= 7 THEN {Free(i)}
                   ELSE UNION {{Pinned(t, pin) : pin \in Pick(Pins(t))} : t \in Pick(PinTypes)}
 \* result types of a generic function over its variables vs
 GenRets(vs) == UNION {{v, L(v), Bx(v)} \cup {Tu(v, w) : w \in vs} \cup {R(v, w) : w \in vs}
@@ -433,6 +451,7 @@ SweepRets(vs) == IF vs = {} THEN {"Int"} ELSE vs \cup {Tu(p[1], p[2]) : p \in {q
 LabelKinds == {Ann("Int"), Ann("String"), Ann("a")}
 \* exhaustive "rules" inside a generic function
 GenBodySigs == {MkSig(<<Ann("a"), Free(2)>>, 0, r, TRUE) : r \in {"a", "u2", Tu("a", "u2"), L("u2")}}
+FunParamSigs == {MkSig(<<Ann(F1("Int", "Bool")), Ann(F1("String", "Int"))>>, 0, r, FALSE) : r \in {"Bool", "Int", L("Bool"), L("Int")}}
 CallerSig == Sig(<<>>, <<>>, 0, "Nil", FALSE)
 
 Header ==
@@ -464,8 +483,8 @@ Header ==
                   \/ \E t \in PinTypes : \E pin \in Pins(t) :
                        /\ sigs' = <<MkSig(<<Pinned(t, pin)>>, 0, "Int", FALSE)>>
                        /\ Become(Run(Conf(<<Sym("FUN", "", 1)>>, sigs', 0)))
-                  \* every rule once inside a generic function
-                  \/ \E sg \in GenBodySigs :
+                  \* every rule once inside a generic function, and in a function with function-typed parameters
+                  \/ \E sg \in GenBodySigs \cup FunParamSigs :
                        /\ sigs' = <<sg>>
                        /\ Become(Run(Conf(<<Sym("FUN", "", 1)>>, sigs', Budget)))
              ELSE \* every signature once, with a caller that instantiates it twice
